@@ -70,12 +70,28 @@ def fam_literal(n, k):
     return "package adv\n\nfunc F(x string) int {\n\ts := %d\n\tif x == \"%s\" {\n\t\ts++\n\t}\n%s\treturn s\n}\n" % (k, big, lits)
 
 
+def fam_invchain(n, mode):
+    """A doubling chain of LOOP-INVARIANT additions inside a loop whose top feeds, depending on
+    mode, an accumulator step, the counter step or the loop limit."""
+    chain = "".join("\t\tx%d := x%d + x%d\n" % (j + 1, j, j) for j in range(n))
+    top = "x%d" % n
+    if mode % 3 == 0:
+        return ("package adv\n\nfunc F(m int) int {\n\ts := 0\n\tx0 := m\n\tfor i := 0; i < m; i++ {\n%s\t\ts += %s\n\t}\n\treturn s\n}\n" % (chain, top))
+    if mode % 3 == 1:
+        return ("package adv\n\nfunc F(m int) int {\n\ts := 0\n\tx0 := m\n\tfor i := 0; i < m; {\n%s\t\ts++\n\t\ti += %s\n\t}\n\treturn s\n}\n" % (chain, top))
+    return ("package adv\n\nfunc F(m int) int {\n\ts := 0\n\tx0 := m\n\ti := 0\n\tfor {\n%s\t\tif i >= %s {\n\t\t\tbreak\n\t\t}\n\t\ts += i\n\t\ti++\n\t}\n\treturn s\n}\n" % (chain, top))
+
+
 FAMILIES = {"const_adds": fam_const_adds, "identical_ops": fam_identical, "calls_distinct_args": fam_calls, "dag_doubling": fam_dag,
-            "nested_loops": fam_nested, "many_blocks": fam_blocks, "phi_cycle": fam_phi, "huge_literals": fam_literal}
+            "nested_loops": fam_nested, "many_blocks": fam_blocks, "phi_cycle": fam_phi, "huge_literals": fam_literal,
+            "invariant_chain_acc": lambda n, k: fam_invchain(n, 0), "invariant_chain_step": lambda n, k: fam_invchain(n, 1),
+            "invariant_chain_limit": lambda n, k: fam_invchain(n, 2)}
 SIZES = {"const_adds": [250, 500, 1000, 2000, 4000, 8000, 16000], "identical_ops": [250, 1000, 4000, 16000],
          "calls_distinct_args": [250, 1000, 4000, 16000], "dag_doubling": [8, 16, 32, 64, 128, 256],
          "nested_loops": [10, 30, 60, 63, 64, 65, 70, 90], "many_blocks": [500, 1500, 2400, 2600, 4000, 8000],
-         "phi_cycle": [8, 32, 128, 512], "huge_literals": [64, 1000, 16000, 70000]}
+         "phi_cycle": [8, 32, 128, 512], "huge_literals": [64, 1000, 16000, 70000],
+         "invariant_chain_acc": [50, 99, 101, 120, 400], "invariant_chain_step": [50, 99, 101, 120, 400],
+         "invariant_chain_limit": [50, 99, 101, 120, 400]}
 
 
 def check(ctx):
@@ -101,7 +117,8 @@ def check(ctx):
                     fh.write("module example.com/adv\n\ngo 1.21\n")
                 with open(os.path.join(d, side, "a.go"), "w") as fh:
                     fh.write(gen(n, arg))
-            cases.append({"family": fam, "size": n, "old": os.path.join(d, "old", "a.go"), "new": os.path.join(d, "new", "a.go")})
+            cases.append({"family": fam, "size": n, "old": os.path.join(d, "old", "a.go"), "new": os.path.join(d, "new", "a.go"),
+                          "budget_ms": 20000 if fam.startswith("invariant_chain") else 120000})
     # a file beyond the 10 MiB cap goes through the CLI path (ProcessFile / ComputeDiff reject it)
     plan = os.path.join(ctx.scratch, "plan.json")
     out = os.path.join(ctx.scratch, "work.ndjson")
